@@ -1,1 +1,2 @@
-
+import AmiscProps.C01
+import AmiscProps.C02
